@@ -1,7 +1,7 @@
 (* C13 -- property theorems only.  Each closed by [exact]; Print Assumptions beneath. *)
 From Coq Require Import List NArith Bool.
 Import ListNotations.
-Require Import V.C13.Model V.C13.Proofs.
+Require Import V.C13.Model V.C13.Proofs V.C13.RelModel V.C13.RelProofs.
 Open Scope N_scope.
 
 (* Consistent renaming.  A script context c and a reference p are given as TAGGED segments:
@@ -56,6 +56,26 @@ Theorem resolve_commutes : forall (A B : Type) clsA kwA clsB kwB (h : A -> B),
               = map_res (map (map_out h)) (resolve clsA kwA c p).
 Proof. exact resolve_h. Qed.
 Print Assumptions resolve_commutes.
+
+(* Builder.parseRelation's default-framer rule (model RelModel.v): a frame relation without an
+   `of framer` clause addresses the MAIN framer iff the frame named is `main`; an `of framer`
+   clause without a name follows the same default. *)
+Theorem relation_frame_default_framer : forall o,
+  relation_parts (RelFrame o None)
+  = [1; (if is_main o then 3 else 2); 4; match o with Some f => fname_part f | None => 2 end]
+  /\ relation_parts (RelFrame o (Some None)) = relation_parts (RelFrame o None).
+Proof. exact frame_default_framer. Qed.
+Print Assumptions relation_frame_default_framer.
+
+(* parseIndirect + resolvePath: `x... of frame main` written in ANY auxiliary context (original
+   or clone, any inodes, any actor) resolves to framer.<main framer>.frame.<main frame>.x... :
+   it does not depend on the auxiliary's own (clone) name, tag or frame names. *)
+Theorem frame_main_resolves_under_main_framer : forall nm (c : ctx N) x rest,
+  has_main c = true -> clsN x = KOther ->
+  resolve_str nm c (indirect_parts (x :: rest) (RelFrame (Some FMain) None))
+  = Ok ([1; n_mainframer nm; 4; n_mainframe nm; x] ++ rest).
+Proof. exact frame_main_under_main_framer. Qed.
+Print Assumptions frame_main_resolves_under_main_framer.
 
 (* non-vacuity: testNestedVia.flo -- `do doer param via testnest per color red` in frame nest of
    framer test (inode top): ioinit inode [testnest], path [red]  ->  top.testnest.red ;
